@@ -164,6 +164,19 @@ Fixpoint give_up (P : mem) (fuel : nat) (i hi last_key curr_key : N) : result (o
       else Done (None, curr_key)
   end.
 
+(* the positions of the words skipped by giving up still count for the estimate (repair of D32: they used to be counted
+   only when no other document followed in this term's words, so the estimate depended on the neighbours) *)
+Fixpoint give_up_sum (P : mem) (fuel : nat) (i hi last_key : N) : result N :=
+  match fuel with
+  | O => OutOfFuel
+  | S f =>
+      if i <? hi then
+        do w <- rd 0 P i;
+        if negb (dkey w =? last_key) then Done 0
+        else do r <- give_up_sum P f (i + 1) hi last_key; Done (popcount (N.land w (wnot header_mask)) + r)
+      else Done 0
+  end.
+
 Fixpoint words_loop (P : mem) (fuel : nat) (hi : N) (tord : N) (nt : N) (maxw : Z) (st : tstate) : result tstate :=
   match fuel with
   | O => OutOfFuel
@@ -183,12 +196,14 @@ Fixpoint words_loop (P : mem) (fuel : nat) (hi : N) (tord : N) (nt : N) (maxw : 
                     if SPAN_CAP <=? N.of_nat (length sp2) then
                       (* give up: full = True (repair of D26: the table is incomplete for this document) *)
                       do g <- give_up P (S (N.to_nat (hi - idx1))) idx1 hi last_key ck;
-                      Done (sp2, match fst g with Some i => i | None => idx1 end, snd g, true)
-                    else Done (sp2, idx1, ck, full1)
-                  else Done (spans1, idx1, ck, full1));
-        let '(spans2, idx2, ck2, full2) := cg in
+                      do extra <- give_up_sum P (S (N.to_nat (hi - idx1))) idx1 hi last_key;
+                      (* for ... else: with no later document the cursor moves to the end of this term's words *)
+                      Done (sp2, match fst g with Some i => i | None => hi end, snd g, true, extra)
+                    else Done (sp2, idx1, ck, full1, 0)
+                  else Done (spans1, idx1, ck, full1, 0));
+        let '(spans2, idx2, ck2, full2, extra) := cg in
         let st' := {| ts_spans := spans2; ts_full := full2; ts_last_key := last_key; ts_curr_key := ck2; ts_idx := idx2;
-                      ts_sum := ts_sum st + popcount payload |} in
+                      ts_sum := ts_sum st + popcount payload + extra |} in
         if negb (ck2 =? last_key) then Done st' else words_loop P f hi tord nt maxw st'
       else Done st
   end.
